@@ -90,7 +90,7 @@ Init ==
   /\ up = TRUE /\ stopping = FALSE /\ mem = FreshMem /\ run = [h \in Hs |-> NoRun]
   /\ pc = "idle" /\ cyc = NoCyc /\ now = 0
   /\ bud = [edits |-> 0, toggles |-> 0, deletes |-> 0, force |-> 0, stops |-> 0, kills |-> 0]
-  /\ gh = [early |-> FALSE, respawned |-> FALSE, killer |-> FALSE, exitwhen |-> 0, rematch |-> {}, double |-> FALSE, delat |-> 0, stopat |-> 0, closed |-> FALSE]
+  /\ gh = [early |-> FALSE, respawned |-> FALSE, killer |-> FALSE, exitwhen |-> 0, rematch |-> {}, double |-> FALSE, delat |-> 0, stopat |-> 0, closed |-> FALSE, racy |-> {}]
 
 (***************************************************************************)
 (* Environment                                                             *)
@@ -211,7 +211,9 @@ StopSet(h) ==
            THEN /\ run' = [run EXCEPT ![h] = NoRun] /\ UNCHANGED mem
            ELSE /\ run' = [run EXCEPT ![h].flag = TRUE, ![h].when = IF run[h].flag THEN @ ELSE now] /\ UNCHANGED mem
         /\ cyc' = [cyc EXCEPT !.cur = h, !.ph = "set", !.age = age]
-  /\ UNCHANGED <<obj, chan, bl, up, stopping, pc, now, bud, gh, conf>>
+        \* F33: the function has returned on its own, its guarding task has not finished yet - and now finds a stop reason
+        /\ gh' = [gh EXCEPT !.racy = IF run[h].on /\ run[h].exited /\ ~run[h].flag THEN @ \cup {h} ELSE @]
+  /\ UNCHANGED <<obj, chan, bl, up, stopping, pc, now, bud, conf>>
 Stage(h) ==
   /\ up /\ pc = "stop" /\ cyc.cur = h /\ cyc.ph = "set"
   /\ LET b == DH[h].backoff  t == DH[h].timeout  age == cyc.age
@@ -350,6 +352,7 @@ AtRest == up /\ ~stopping /\ ~ENABLED Urgent /\ chan = <<>> /\ bl = <<>> /\ pc =
 \* known families: F5 (instances of a vanished object are not driven to a stop), F18 (re-matching while stopping)
 Family_F5 == ~obj.exists /\ \E h \in Hs : run[h].on
 Family_F18 == gh.rematch # {}
+Family_F33 == gh.racy # {}
 \* at rest a matching object that is not being deleted has a live, unflagged instance of every daemon that did not leave on its own
 StartOnMatch == (AtRest /\ obj.exists /\ ~obj.deleting /\ (obj.match \/ ~conf.filter)) =>
                    \A h \in Reg \ mem.forever : IsTimer(h) \/ Family_F18 \/ (Alive(h) /\ ~run[h].flag)
